@@ -150,14 +150,16 @@ class RunTest:
         test_method = self.case._get_test_method()
         skip_case = getattr(self.case, "__unittest_skip__", False)
         if skip_case or getattr(test_method, "__unittest_skip__", False):
-            self.result.addSkip(
-                self.case,
-                reason=getattr(
-                    self.case if skip_case else test_method,
-                    "__unittest_skip_why__",
-                    None,
-                ),
+            reason = getattr(
+                self.case if skip_case else test_method,
+                "__unittest_skip_why__",
+                "",
             )
+            if not isinstance(reason, str):
+                # As for skipTest(): the reason only has to be convertible to
+                # text (None is not "no reason": addSkip needs one).
+                reason = str(reason)
+            self.result.addSkip(self.case, reason=reason)
             return
 
         if self.exception_caught == self._run_user(self.case._run_setup, self.result):
